@@ -103,7 +103,7 @@ partial def geojsonText (f : WktEnc.Fmt) (bbox : Option String) (a : AGeom) : St
     | .point _ _ c => "\"coordinates\":" ++ (match c with | some c => jCoord f c | none => "[]")
     | .lineString _ _ cs => "\"coordinates\":" ++ jCoords1 f cs
     | .polygon _ _ r => "\"coordinates\":" ++ jCoords2 f r
-    | .multiPoint _ _ cs => "\"coordinates\":" ++ jsonArr (cs.map fun c => match c with | some c => jCoord f c | none => "[]")
+    | .multiPoint _ _ cs => "\"coordinates\":" ++ jsonArr (cs.map fun c => match c with | some c => jCoord f c | none => "null")
     | .multiLineString _ _ x => "\"coordinates\":" ++ jCoords2 f x
     | .multiPolygon _ _ x => "\"coordinates\":" ++ jCoords3 f x
     | .collection _ _ gs => "\"geometries\":" ++ jsonArr (gs.map (geojsonText f none))
